@@ -53,5 +53,5 @@ def run(c):
         "the 64-bit counters n.uniqID and n.nextID do not wrap during a node's life (stated hypothesis counter + k < 2^64; uniqID starts at time.Now().UnixNano())",
         "sync.Map.LoadOrStore / LoadAndDelete / CompareAndDelete and atomic.Bool operations are linearizable; racing registrants are modelled by the order in which their LoadOrStore takes effect",
         "process-level operations run inside the owning actor's callback (state Running); only node.RegisterName and node.Kill are called from foreign goroutines",
-        "meta-process aliases are not modelled (no meta process is started by the harness)",
+        "meta-process aliases are not modelled (no meta process is started by the harness); the agreement / release / no-dangling theorems speak about sequential histories of atomic registry operations",
     ]
